@@ -346,7 +346,60 @@ func sameModuloIndent(compact, indented []byte) (bool, string) {
 	if !eqStrings(na, nb) {
 		return false, fmt.Sprintf("compact=%v indented=%v", na, nb)
 	}
+	// inter-element white space only: the markup itself (every tag, comment, instruction, byte for byte) is the same
+	if ta, tb := markupSpans(compact), markupSpans(indented); !eqStrings(ta, tb) {
+		return false, fmt.Sprintf("the markup differs inside a tag: compact=%q indented=%q", ta, tb)
+	}
 	return true, ""
+}
+
+// markupSpans returns the raw text of every tag, comment, CDATA section, instruction and directive, in order.
+func markupSpans(b []byte) []string {
+	var out []string
+	for i := 0; i < len(b); {
+		if b[i] != '<' {
+			i++
+			continue
+		}
+		rest := b[i:]
+		end := -1
+		switch {
+		case bytes.HasPrefix(rest, []byte("<!--")):
+			if j := bytes.Index(rest, []byte("-->")); j >= 0 {
+				end = j + 3
+			}
+		case bytes.HasPrefix(rest, []byte("<![CDATA[")):
+			if j := bytes.Index(rest, []byte("]]>")); j >= 0 {
+				end = j + 3
+			}
+		case bytes.HasPrefix(rest, []byte("<?")):
+			if j := bytes.Index(rest, []byte("?>")); j >= 0 {
+				end = j + 2
+			}
+		default:
+			var q byte
+			for j := 1; j < len(rest); j++ {
+				ch := rest[j]
+				if q != 0 {
+					if ch == q {
+						q = 0
+					}
+				} else if ch == '"' || ch == '\'' {
+					q = ch
+				} else if ch == '>' {
+					end = j + 1
+					break
+				}
+			}
+		}
+		if end < 0 {
+			out = append(out, string(rest))
+			break
+		}
+		out = append(out, string(rest[:end]))
+		i += end
+	}
+	return out
 }
 
 // c16Explore runs every encoder of the source under all explored map orders and checks all clauses.
